@@ -23,15 +23,15 @@ BUDGET = {'quick': dict(examples=1100, shards=16, max_seconds=75),
           'thorough': dict(examples=16000, shards=16, max_seconds=1800)}
 SHRINK_BUDGET = {'quick': 60, 'thorough': 400}
 
-REMOVAL_KINDS = {'remove': 10, 'rmtable': 2, 'rmcol': 2, 'rmview': 1, 'rmsection': 1, 'meta_rmcol': 1,
+REMOVAL_KINDS = {'remove': 10, 'rmtable': 3, 'rmcol': 2, 'rmview': 1, 'rmsection': 1, 'meta_rmcol': 1,
                  'meta_rmtable': 1, 'meta_rmfield': 1}
 O.PROFILES['removal'] = REMOVAL_KINDS
-O.PROFILES['refs'] = dict(O.PROFILES['general'], addref=14, reverse=5, add=16, update=12, summary=2, rencol=1, rentable=1,
+O.PROFILES['refs'] = dict(O.PROFILES['general'], addref=16, reverse=5, add=16, update=24, summary=5, rencol=1, rentable=1,
                           meta_col=1, modformula=1, addfcol=2)
 
 
 def strategy(tier):
-  return st.fixed_dictionaries({'h': O.history('refs', 2, 8),
+  return st.fixed_dictionaries({'h': O.history('refs', 3, 12),
                                 'removals': st.lists(O.bundle('removal', 2), min_size=1, max_size=5)})
 
 
